@@ -12,6 +12,164 @@ RUNNER = (
     "| Ok a => Z.of_nat (a_age a) :: map Z.of_nat (a_isl_ages a) ++ enc_islands (Ok (a_islands a)) end)")
 
 
+HEADER_P = "From Bingo Require Import Model.ParPartner."
+RUNNER_P = ("(fun c : list nat * nat => match partner (fst c) (snd c) with None => [(-2)%Z] | Some None => [(-1)%Z] "
+            "| Some (Some q) => [Z.of_nat q] end)")
+
+
+def partner_results(orders):
+    """the real ParallelArchipelago._get_migration_partner, called for every rank with the same broadcast shuffle (a stub stands
+    in for the communicator: bcast hands every rank the list rank 0 shuffled)"""
+    import os
+    import sys
+    sys.path.insert(0, os.path.join(os.path.dirname(os.path.dirname(os.path.abspath(__file__))), "vendor"))
+    from bingo.evolutionary_optimizers.parallel_archipelago import ParallelArchipelago
+
+    class Comm:
+        def __init__(self, order):
+            self.order = order
+
+        def bcast(self, obj, root=0):
+            return list(self.order)
+
+    class Stub:
+        pass
+    out = []
+    for order in orders:
+        n = len(order)
+        answers = []
+        for rank in range(n):
+            st = Stub()
+            st.comm_rank, st.comm_size, st._num_islands, st.comm = rank, n, n, Comm(order)
+            st._shuffle_island_indices = lambda _o=order: list(_o)
+            try:
+                p_ = ParallelArchipelago._get_migration_partner(st)
+                answers.append(-1 if p_ is None else int(p_))
+            except Exception as e:  # noqa
+                answers.append(-2)
+        viol = []
+        lonely = [r for r, a in enumerate(answers) if a == -1]
+        for r, a in enumerate(answers):
+            if a == -2:
+                viol.append("rank %d of %d: partner lookup raised (shuffle %r)" % (r, n, order))
+            elif a >= 0 and (a == r or not 0 <= a < n or answers[a] != r):
+                viol.append("shuffle %r: rank %d is told to exchange with rank %r, which is told %r - the exchange cannot complete"
+                            % (order, r, a, answers[a] if 0 <= a < n else None))
+        if len(lonely) != n % 2:
+            viol.append("shuffle %r: ranks %r sit out, exactly %d may" % (order, lonely, n % 2))
+        out.append(dict(order=order, answers=answers, viol=viol))
+    return out
+
+
+HEADER_M = """From Bingo Require Import Model.Migration Model.ParPartner Model.ParMigrate.
+From Coq Require Import ZArith List Bool.
+Import ListNotations.
+Definition enc_isl (i : island) : list Z := flat_map (fun p : nat * bool => [Z.of_nat (fst p); (if snd p then 1 else 0)%Z]) i.
+Definition runner_m (c : list nat * list (list (nat * bool) * list (nat * bool)) * list (list (nat * bool)) * list nat) : list Z :=
+  let '(order, dumps, pops, sched) := c in
+  let s := mrun order dumps sched (minit pops) in
+  (if mfinal s then 1 else 0)%Z :: Z.of_nat (length (filter (fun m => match m with Some _ => true | None => false end) (mmail s)))
+    :: flat_map (fun i : island => (-7)%Z :: enc_isl i) (mpops s)."""
+RUNNER_M = "runner_m"
+
+
+def parallel_migration_runs(nruns, seed):
+    """the real ParallelArchipelago._coordinate_migration_between_islands on the deterministic mpi4py stand-in, one call per rank
+    under a random interleaving; the shuffle is chosen by the harness (handed to rank 0), every rank's dump is recorded, and the
+    order in which the ranks performed their send and their receive becomes the schedule of Model/ParMigrate.v"""
+    import os
+    import sys
+    sys.path.insert(0, os.path.join(os.path.dirname(os.path.dirname(os.path.abspath(__file__))), "vendor"))
+    import numpy as np
+    import mpi4py.MPI as MPI
+    from bingo.chromosomes.multiple_values import MultipleValueChromosome
+    from bingo.evolutionary_algorithms.ea_diagnostics import EaDiagnostics
+    from bingo.evolutionary_optimizers.island import Island
+    from bingo.evolutionary_optimizers.parallel_archipelago import ParallelArchipelago
+
+    class StubEval:
+        eval_count = 0
+
+        def __call__(self, population):
+            pass
+
+    class StubEA:
+        def __init__(self):
+            self.evaluation = StubEval()
+            self.diagnostics = EaDiagnostics()
+
+        def generational_step(self, population):
+            return population
+    rng = random.Random(seed + 5)
+    out = []
+    for t in range(nruns):
+        n = rng.randint(1, 6)
+        order = list(range(n))
+        rng.shuffle(order)
+        sizes = [rng.randint(1, 9)] * n if rng.random() < 0.6 else [rng.randint(1, 7) for _ in range(n)]
+        flags = [[rng.random() < 0.6 for _ in range(sz)] for sz in sizes]
+        sim = MPI.Simulation(n, [rng.randrange(64) for _ in range(400)], max_steps=20000)
+        np.random.seed((seed + 31 * t) % (2 ** 31))
+
+        def body(rank, _order=order, _sizes=sizes, _flags=flags):
+            isl = Island(StubEA(), lambda: MultipleValueChromosome([0]), 0)
+            pop = []
+            for k in range(_sizes[rank]):
+                ind = MultipleValueChromosome([0])
+                ind.tag = rank * 100 + k
+                if _flags[rank][k]:
+                    ind.fitness = 1.0
+                pop.append(ind)
+            isl.population = pop
+            arch = ParallelArchipelago(isl)
+            arch._shuffle_island_indices = lambda: list(_order)
+            pre = [[p.tag, bool(p.fit_set)] for p in isl.population]
+            rec = {}
+            real_dump = isl.dump_fraction_of_population
+
+            def dump(fraction):
+                d = real_dump(fraction)
+                rec["to"] = [[p.tag, bool(p.fit_set)] for p in d]
+                rec["rem"] = [[p.tag, bool(p.fit_set)] for p in isl.population]
+                return d
+            isl.dump_fraction_of_population = dump
+            arch._coordinate_migration_between_islands()
+            return dict(pre=pre, post=[[p.tag, bool(p.fit_set)] for p in isl.population], to=rec.get("to", []), rem=rec.get("rem", []),
+                        dumped="to" in rec)
+        sim.run(body)
+        viol = []
+        if sim.deadlock or sim.aborted or sim.errors or len(sim.results) != n:
+            viol.append("migration among %d ranks with shuffle %r did not complete on every rank (deadlock %r, errors %r)"
+                        % (n, order, sim.deadlock, {k: v[:200] for k, v in sim.errors.items()}))
+            out.append(dict(n=n, order=order, viol=viol, skip=True))
+            continue
+        res = [sim.results[r] for r in range(n)]
+        idle = [r for r in range(n) if not res[r]["dumped"]]
+        sched = []
+        for (r, label, _) in sim.events:
+            if label in ("sendrecv_send", "sendrecv_recv") or (label == "bcast_leave" and r in idle):
+                sched.append(r)
+        left = sum(len(m) for m in sim.mail)
+        before = sorted(p[0] for r_ in res for p in r_["pre"])
+        after = sorted(p[0] for r_ in res for p in r_["post"])
+        if before != after:
+            viol.append("shuffle %r: individuals before %r, after %r" % (order, before, after))
+        if len(idle) != n % 2:
+            viol.append("shuffle %r: ranks %r did not exchange, exactly %d may sit out" % (order, idle, n % 2))
+        for r in range(n):
+            if r in idle and res[r]["post"] != res[r]["pre"]:
+                viol.append("rank %d sat out but its population or flags changed" % r)
+            if r not in idle and any(f for _, f in res[r]["post"]):
+                viol.append("rank %d exchanged individuals and still holds one marked evaluated" % r)
+        if len(set(sizes)) == 1 and any(len(r_["post"]) != sizes[0] for r_ in res):
+            viol.append("equally sized islands (%d) end with sizes %r" % (sizes[0], [len(r_["post"]) for r_ in res]))
+        if left:
+            viol.append("%d messages left undelivered after the migration" % left)
+        out.append(dict(n=n, order=order, dumps=[[r_["to"], r_["rem"]] for r_ in res], pops=[r_["pre"] for r_ in res], sched=sched,
+                        post=[r_["post"] for r_ in res], left=left, viol=viol))
+    return out
+
+
 def gen_case(rng):
     k = rng.randint(1, 7)
     if rng.random() < 0.6:
@@ -152,7 +310,8 @@ def impl_main(payload):
                 viol.append("individual on participating island %d still marked evaluated" % k)
                 break
         results.append(dict(out=out, viol=viol, tape=[list(t) for t in tape]))
-    return dict(results=results)
+    return dict(results=results, partners=partner_results(payload.get("orders", [])),
+                parmig=parallel_migration_runs(payload.get("parmig_runs", 0), payload.get("seed", 0)))
 
 
 def check(rep, proof):
@@ -160,7 +319,14 @@ def check(rep, proof):
     n = 2500 if rep.tier == "quick" else 50000
     exh = exhaustive_cases() if rep.tier == "thorough" else []
     cases = exh + [gen_case(rng) for _ in range(n)]
-    rc, res, out, wall = vlib.run_impl("c11", dict(cases=cases, seed=rep.seed), timeout=3000)
+    import itertools
+    orders = [list(p_) for k in range(1, 6) for p_ in itertools.permutations(range(k))]        # every shuffle of up to 5 ranks
+    for _ in range(150 if rep.tier == "quick" else 3000):
+        o_ = list(range(rng.randint(6, 12)))
+        rng.shuffle(o_)
+        orders.append(o_)
+    rc, res, out, wall = vlib.run_impl("c11", dict(cases=cases, seed=rep.seed, orders=orders,
+                                                   parmig_runs=150 if rep.tier == "quick" else 3000), timeout=3000)
     if res is None:
         rep.violation("implementation harness crashed", dict(relation="corr_C11_migration", log=out[-3000:]), has_input=False)
         return
@@ -175,6 +341,26 @@ def check(rep, proof):
     par = pres["migration"] if pres is not None else dict(checks=0, exchanging_ranks=0, viol=["the parallel harness crashed: %s" % pout[-400:]])
     pairs = [(coq_case(c, r["tape"]), r["out"]) for c, r in zip(cases, results)]
     bad, log = vlib.coq_compare("c11", HEADER, RUNNER, pairs)
+    partners = res.get("partners", [])
+    ppairs = [("(%s, %d%%nat)" % (vlib.clist(pr["order"], lambda i: "%d%%nat" % i), r), [a]) for pr in partners for r, a in enumerate(pr["answers"])]
+    badp, logp = vlib.coq_compare("c11p", HEADER_P, RUNNER_P, ppairs)
+    pviol = [v for pr in partners for v in pr["viol"]]
+    parmig = res.get("parmig", [])
+    isl_ = lambda i: vlib.clist(i, lambda p: "(%d%%nat, %s)" % (p[0], vlib.cbool(p[1])))  # noqa
+    natl = lambda l: vlib.clist(l, lambda i: "%d%%nat" % i)  # noqa
+    mpairs = []
+    for m in parmig:
+        if m.get("skip"):
+            continue
+        exp_ = [1, m["left"]]
+        for i in m["post"]:
+            exp_.append(-7)
+            for tg, fl in i:
+                exp_ += [tg, 1 if fl else 0]
+        mpairs.append(("(%s, %s, %s, %s)" % (natl(m["order"]), vlib.clist(m["dumps"], lambda d: "(%s, %s)" % (isl_(d[0]), isl_(d[1]))),
+                                             vlib.clist(m["pops"], isl_), natl(m["sched"])), exp_))
+    badm, logm = vlib.coq_compare("c11m", HEADER_M, RUNNER_M, mpairs)
+    mviol = [v for m in parmig for v in m["viol"]]
     rep.coverage.update(
         evaluations=len(cases),
         distinct_nontrivial=len({repr(c["isls"]) + repr(r["tape"]) for c, r in zip(cases, results)
@@ -185,7 +371,11 @@ def check(rep, proof):
              "two islands and two individuals; distinct by (layout, recorded tape)",
         samples=[dict(case=cases[len(exh)], tape=results[len(exh)]["tape"])],
         correspondence=dict(cases=len(cases), disagreements=len(bad), exhaustive_small_scope=len(exh)),
-        oracle_violations=len(oracle_bad) + len(par["viol"]),
+        oracle_violations=len(oracle_bad) + len(par["viol"]) + len(pviol) + len(mviol),
+        parallel_migration_phase=dict(runs=len(parmig), replayed_through_model=len(mpairs), disagreements=len(badm), violations=len(mviol),
+                                      rank_counts=sorted({m["n"] for m in parmig})),
+        parallel_pairing=dict(shuffles=len(partners), rank_answers=len(ppairs), exhaustive_up_to_ranks=5, disagreements=len(badp),
+                              violations=len(pviol)),
         parallel_archipelago=dict(evolve_calls_checked=par["checks"], ranks_whose_population_changed=par["exchanging_ranks"],
                                   rank_counts=sorted({c["n"] for c in pcases}), violations=len(par["viol"])),
         distribution=dict(islands=dict((k, sum(len(c["isls"]) == k for c in cases)) for k in range(1, 8)),
@@ -194,12 +384,20 @@ def check(rep, proof):
     rep.assumptions += [
         "np.random.shuffle permutes its argument in place (the harness records the permutation it applied)",
         "the parallel archipelago's migration is checked by the oracle only (multiset and sizes over all ranks, on the mpi4py stand-in "
-        "of C12); Model/Migration.v is the serial pairing - the parallel pairing by sendrecv is not modelled",
+        "of C12); Model/Migration.v is the serial pairing, Model/ParPartner.v the partner every rank derives from the broadcast shuffle "
+        "(tied by calling the real _get_migration_partner with a stub communicator), Model/ParMigrate.v the exchange phase as a "
+        "transition system (tied by running the real _coordinate_migration_between_islands on the mpi4py stand-in under random "
+        "interleavings and replaying the recorded send/receive order, shuffle and dumps through the model)",
     ]
     if oracle_bad:
         i, v = oracle_bad[0]
         rep.violation("; ".join(v), dict(case=cases[i], tape=results[i]["tape"], observed=results[i]["out"], oracle=v,
                                          numpy_seed=(rep.seed + 7919 * i) % 2 ** 31))
+    elif mviol:
+        rep.violation(mviol[0][:700], dict(kind="ParallelArchipelago._coordinate_migration_between_islands on the mpi4py stand-in",
+                                           oracle=mviol[:4], how="tools/props/c11.py parallel_migration_runs (seed %d)" % rep.seed))
+    elif pviol:
+        rep.violation(pviol[0][:700], dict(kind="ParallelArchipelago._get_migration_partner for every rank of one shuffle", oracle=pviol[:4]))
     elif par["viol"]:
         rep.violation(par["viol"][0][:700], dict(kind="ParallelArchipelago.evolve on the mpi4py stand-in", oracle=par["viol"][:4],
                                                  how="tools/props/c12.py impl_main with c12.gen_case (seed %d + 11)" % rep.seed))
@@ -212,6 +410,22 @@ def check(rep, proof):
                            tape=None if isinstance(first, tuple) else results[first]["tape"],
                            implementation=None if isinstance(first, tuple) else results[first]["out"], model=mo,
                            disagreements=len(bad), log=log[-1500:]), has_input=False)
+    if badm and not rep.violations:
+        first = badm[0]
+        mo = None if isinstance(first, tuple) else vlib.coq_eval_one(HEADER_M, "%s %s" % (RUNNER_M, mpairs[first][0]))
+        rep.violation("model and implementation disagree on the parallel migration phase; property oracle found no failing input",
+                      dict(relation="corr_C11_parmigrate (Model/ParMigrate.v vs ParallelArchipelago._coordinate_migration_between_islands)",
+                           case=None if isinstance(first, tuple) else mpairs[first][0][:1500],
+                           implementation=None if isinstance(first, tuple) else mpairs[first][1], model=mo,
+                           disagreements=len(badm), log=logm[-1500:]), has_input=False)
+    if badp and not rep.violations:
+        first = badp[0]
+        mo = None if isinstance(first, tuple) else vlib.coq_eval_one(HEADER_P, "%s %s" % (RUNNER_P, ppairs[first][0]))
+        rep.violation("model and implementation disagree on the parallel partner lookup; property oracle found no failing input",
+                      dict(relation="corr_C11_partner (Model/ParPartner.v vs ParallelArchipelago._get_migration_partner)",
+                           case=None if isinstance(first, tuple) else ppairs[first][0],
+                           implementation=None if isinstance(first, tuple) else ppairs[first][1], model=mo,
+                           disagreements=len(badp), log=logp[-1500:]), has_input=False)
     if not proof["ok"] and not rep.violations:
         rep.violation("proof obligation no longer checks: %s" % proof["broken"],
                       dict(theorem=proof["broken"], log=proof["log"][-3000:]), has_input=False)
